@@ -8,26 +8,28 @@ BASE_INV = "P_Copies P_Const P_Convex P_LinearMid PX_Copies PX_Const PX_Convex P
 FMG_INV = "FI_Copies FI_Const FI_CubicR FI_CubicT FI_RowKinds FI_LinearFallbackMid"
 
 
-def cfg(name, nrc, ntc, sp, mid, emit, inv):
+def cfg(name, nrc, ntc, sp, mid, emit, inv, hper=0):
     path = os.path.join(vlib.BUILD, "cfg", name + ".cfg")
     os.makedirs(os.path.dirname(path), exist_ok=True)
-    open(path, "w").write("SPECIFICATION Spec\nCONSTANTS\n  NrC = %s\n  NtC = %s\n  Sp = %s\n  Midpoint = %s\n  EmitTables = %s\nINVARIANTS %s%s\n"
-                          % (nrc, ntc, sp, "TRUE" if mid else "FALSE", "TRUE" if emit else "FALSE", inv, " Emit" if emit else ""))
+    open(path, "w").write("SPECIFICATION Spec\nCONSTANTS\n  NrC = %s\n  NtC = %s\n  Sp = %s\n  Midpoint = %s\n  HPer = %d\n  EmitTables = %s\nINVARIANTS %s%s\n"
+                          % (nrc, ntc, sp, "TRUE" if mid else "FALSE", hper, "TRUE" if emit else "FALSE", inv, " Emit" if emit else ""))
     return path
 
 
 def families(tier):
+    # (NrC, NtC, Sp, HPer); the pairs with >= 4 coarse radii AND >= 4 coarse angles are the only ones on which the interior 16-point
+    # rule of the FMG interpolation uses four distinct nodes in both directions
     if tier == "thorough":
-        return [("{3,4,5}", "{2}", "{1,2}"), ("{3,4}", "{4}", "{1,2}"), ("{3}", "{2,4}", "{1,2,3}")]
-    return [("{3,4}", "{2}", "{1,2}"), ("{3}", "{4}", "{1,2}")]
+        return [("{3,4,5}", "{2}", "{1,2}", 0), ("{3,4}", "{4}", "{1,2}", 0), ("{3}", "{2,4}", "{1,2,3}", 0), ("{5}", "{4,6}", "{1,2}", 2)]
+    return [("{3,4}", "{2}", "{1,2}", 0), ("{3}", "{4}", "{1,2}", 0), ("{4}", "{4}", "{1,2}", 3)]
 
 
 def model_and_tables(rep, tier, inv, label):
     """model-check the invariants on every pair of the families; returns the emitted tables"""
     tables = []
-    for i, (nrc, ntc, sp) in enumerate(families(tier)):
-        r = vlib.tlc("Transfer", cfg("transfer_%s_%s_%d" % (label, tier, i), nrc, ntc, sp, False, True, inv), heap="12g", tag="tr%s%d" % (label, i), timeout=3000)
-        rep.add_tlc(r, "Transfer.tla pairs NrC=%s NtC=%s Sp=%s" % (nrc, ntc, sp))
+    for i, (nrc, ntc, sp, hper) in enumerate(families(tier)):
+        r = vlib.tlc("Transfer", cfg("transfer_%s_%s_%d" % (label, tier, i), nrc, ntc, sp, False, True, inv, hper), heap="12g", tag="tr%s%d" % (label, i), timeout=3000)
+        rep.add_tlc(r, "Transfer.tla pairs NrC=%s NtC=%s Sp=%s%s" % (nrc, ntc, sp, " radial period %d" % hper if hper else ""))
         if not vlib.tlc_must_hold(r, "Transfer.tla"):
             rep.violation("model:" + r.violation, "Transfer.tla: %s violated\n%s" % (r.violation, vlib.counterexample(r)[:1500]),
                           replay={"tlc": vlib.counterexample(r)[:4000]})
@@ -38,7 +40,7 @@ def model_and_tables(rep, tier, inv, label):
 
 def linear_everywhere(rep, tier, inv_all, what):
     """the property demands linear reproduction on EVERY pair; on midpoint pairs it must hold, elsewhere it is the recorded finding F2"""
-    nrc, ntc, sp = families(tier)[0]
+    nrc, ntc, sp, _hper = families(tier)[0]
     r = vlib.tlc("Transfer", cfg("transfer_linmid_%s" % inv_all, nrc, ntc, sp, True, False, inv_all), tag="trlinmid", timeout=1200)
     rep.add_tlc(r, "%s on midpoint pairs" % inv_all)
     if not vlib.tlc_must_hold(r, "Transfer.tla"):
